@@ -152,3 +152,10 @@ prop("C18", module="MW.Props.C18", title="version-gated, preserving migrations",
      assumptions=["a migration is one atomic entry-point call (a refused migration persists nothing: runtime atomicity, checked on the raw storage)",
                   "semver build metadata ('+…') is not modelled and never generated",
                   "legacy stores are written in the serde-json-wasm encoding of the legacy layouts (u128 as string)"])
+
+prop("C16", module="MW.Props.C16", title="entry points never panic", extra=["treasury", "migration"],
+     state_keys=[], weights={"stake": 16, "unstake": 10, "submit": 8, "deliver": 7, "rewards": 8, "withdraw": 8, "ack": 8,
+                             "timeout": 3, "recover": 6, "update_config": 6, "resume": 4, "garbage": 4, "unauthorized": 6},
+     profile={"queries": 0.2},
+     assumptions=["envelope of the property: amounts ≤ 10^27, totals ≤ 10^30, rates within [10^-3, 10^3] before and after the call, block time < 2^63 ns, sender a valid address under the configured prefix, counters below 2^64",
+                  "every harness call runs under catch_unwind; allocation failure, stack depth and gas are outside the model"])
